@@ -186,15 +186,15 @@ theorem clamp_depth (m : ℕ) (depth : Option ℕ) :
 /-- the `query_disc` call of `add_circles`: nside = 2^depth (clamped), the centre's unit vector,
     the radius unchanged (radians), inclusive, nested -/
 theorem addCircleCall_shape (m : ℕ) (depth : Option ℕ) (ra dec r : ℝ) :
-    let c := addCircleCall sky2angTheta m depth ra dec r
+    let c := addCircleCall sky2angTheta discFact m depth ra dec r
     c.depth = clampDepth m depth ∧ c.nside = 2 ^ c.depth ∧ c.radius = r ∧ c.inclusive = true ∧
-      c.nest = true ∧ c.vec = ⟨cos dec * cos ra, cos dec * sin ra, sin dec⟩ := by
+      c.nest = true ∧ c.fact = discFact ∧ c.vec = ⟨cos dec * cos ra, cos dec * sin ra, sin dec⟩ := by
   simp only [addCircleCall, sky2vec_eq_skyvec, skyvec, and_self]
 
 /-- list arguments: one call per zipped triple -/
-theorem addCirclesCalls_length {α : Type} [R α] (th : α → α) (m : ℕ) (depth : Option ℕ)
+theorem addCirclesCalls_length {α : Type} [R α] (th : α → α) (fact m : ℕ) (depth : Option ℕ)
     (ras decs rs : List α) :
-    (addCirclesCalls th m depth ras decs rs).length = min (min ras.length decs.length) rs.length := by
+    (addCirclesCalls th fact m depth ras decs rs).length = min (min ras.length decs.length) rs.length := by
   induction ras generalizing decs rs with
   | nil => simp [addCirclesCalls]
   | cons a ras ih =>
@@ -208,10 +208,10 @@ theorem addCirclesCalls_length {α : Type} [R α] (th : α → α) (m : ℕ) (de
 /-- list arguments: the calls are exactly the per-triple calls, in order — a function of the current
     arguments only, with NO de-duplication: a centre listed twice gets two calls, each with its own
     radius (so the larger of two radii at a repeated centre is covered whatever the order) -/
-theorem addCirclesCalls_eq_map {α : Type} [R α] (th : α → α) (m : ℕ) (depth : Option ℕ)
+theorem addCirclesCalls_eq_map {α : Type} [R α] (th : α → α) (fact m : ℕ) (depth : Option ℕ)
     (ras decs rs : List α) :
-    addCirclesCalls th m depth ras decs rs
-      = (ras.zip (decs.zip rs)).map (fun t => addCircleCall th m depth t.1 t.2.1 t.2.2) := by
+    addCirclesCalls th fact m depth ras decs rs
+      = (ras.zip (decs.zip rs)).map (fun t => addCircleCall th fact m depth t.1 t.2.1 t.2.2) := by
   induction ras generalizing decs rs with
   | nil => simp [addCirclesCalls]
   | cons a ras ih =>
@@ -223,14 +223,14 @@ theorem addCirclesCalls_eq_map {α : Type} [R α] (th : α → α) (m : ℕ) (de
       | cons c rs => simp [addCirclesCalls, ih]
 
 /-- `add_poly` rejects exactly the position lists with fewer than three entries -/
-theorem addPolyCall_none_iff {α : Type} [R α] (th : α → α) (m : ℕ) (depth : Option ℕ) (pos : List (α × α)) :
-    addPolyCall th m depth pos = none ↔ pos.length < 3 := by
+theorem addPolyCall_none_iff {α : Type} [R α] (th : α → α) (fact m : ℕ) (depth : Option ℕ) (pos : List (α × α)) :
+    addPolyCall th fact m depth pos = none ↔ pos.length < 3 := by
   unfold addPolyCall
   split <;> simp <;> omega
 
-theorem addPolyCall_shape {α : Type} [R α] (th : α → α) (m : ℕ) (depth : Option ℕ) (pos : List (α × α))
-    (c : PolyCall α) (h : addPolyCall th m depth pos = some c) :
-    c.depth = clampDepth m depth ∧ c.nside = 2 ^ c.depth ∧ c.inclusive = true ∧ c.nest = true ∧
+theorem addPolyCall_shape {α : Type} [R α] (th : α → α) (fact m : ℕ) (depth : Option ℕ) (pos : List (α × α))
+    (c : PolyCall α) (h : addPolyCall th fact m depth pos = some c) :
+    c.depth = clampDepth m depth ∧ c.nside = 2 ^ c.depth ∧ c.inclusive = true ∧ c.nest = true ∧ c.fact = fact ∧
       c.verts = pos.map (fun p => sky2vec th p.1 p.2) := by
   unfold addPolyCall at h
   split at h
@@ -279,7 +279,7 @@ theorem circle_contains_partial (H : Healpix) (m : ℕ) (depth : Option ℕ) (ra
 /-- What the contract gives for exclusion: nothing farther than `r + 2ρ + slack`. -/
 theorem circle_excludes_far_partial (H : Healpix) (m : ℕ) (depth : Option ℕ) (rac decc r ra dec : ℝ)
     (hr : 0 < r)
-    (h : r + 2 * (H.grid (clampDepth m depth)).ρ + (H.disc (clampDepth m depth)).slack
+    (h : r + 2 * (H.grid (clampDepth m depth)).ρ + (H.disc discFact (clampDepth m depth)).slack
           < sepHav rac decc ra dec) :
     regionWithin H m (clampDepth m depth) (discPixels H m depth rac decc r) false ra dec = false := by
   rw [regionWithin_eq H (clampDepth_le m depth), discPixels_eq, decide_eq_false_iff_not]
@@ -293,7 +293,7 @@ theorem circle_excludes_far_partial (H : Healpix) (m : ℕ) (depth : Option ℕ)
     (healpy: ρ ≤ 1.0446·pixSize, slack = ρ at 4·nside ≈ ρ/4, so 2ρ + slack ≈ 2.35 pixel sizes). -/
 theorem circle_excludes_beyond_partial (H : Healpix) (m : ℕ) (depth : Option ℕ) (rac decc r ra dec : ℝ)
     (hr : 0 < r)
-    (hρ : 2 * (H.grid (clampDepth m depth)).ρ + (H.disc (clampDepth m depth)).slack
+    (hρ : 2 * (H.grid (clampDepth m depth)).ρ + (H.disc discFact (clampDepth m depth)).slack
           ≤ 3 * pixSize (clampDepth m depth))
     (h : r + 3 * pixSize (clampDepth m depth) < sepHav rac decc ra dec) :
     regionWithin H m (clampDepth m depth) (discPixels H m depth rac decc r) false ra dec = false :=
@@ -309,20 +309,20 @@ variable [MeasurableSpace E3]
     area is tied by the correspondence (and `pixArea_demote`). -/
 theorem circle_area_between_caps_partial (H : Healpix) (m : ℕ) (depth : Option ℕ) (rac decc r : ℝ)
     (hr : 0 < r) (μ : Measure E3) (M : PixMeasure (H.grid (clampDepth m depth)) μ)
-    (hρ : 2 * (H.grid (clampDepth m depth)).ρ + (H.disc (clampDepth m depth)).slack
+    (hρ : 2 * (H.grid (clampDepth m depth)).ρ + (H.disc discFact (clampDepth m depth)).slack
           ≤ 3 * pixSize (clampDepth m depth)) :
     μ (cap (toE3 (skyvec rac decc)) r) ≤ (discPixels H m depth rac decc r).card * M.A ∧
       (discPixels H m depth rac decc r).card * M.A
         ≤ μ (cap (toE3 (skyvec rac decc)) (r + 3 * pixSize (clampDepth m depth))) := by
   rw [discPixels_eq]
-  obtain ⟨h1, h2⟩ := disc_area_between M (H.disc (clampDepth m depth)) (norm_skyvec rac decc) hr
+  obtain ⟨h1, h2⟩ := disc_area_between M (H.disc discFact (clampDepth m depth)) (norm_skyvec rac decc) hr
   exact ⟨h1, le_trans h2 (measure_mono (cap_mono _ (by linarith)))⟩
 
 /-- the same in closed form, if the measure gives caps their area 2π(1 − cos t) and pixels
     4π/(12·4^d) (both true of the sphere's surface measure; not proved here) -/
 theorem circle_area_closed_form_partial (H : Healpix) (m : ℕ) (depth : Option ℕ) (rac decc r : ℝ)
     (hr : 0 < r) (μ : Measure E3) (M : PixMeasure (H.grid (clampDepth m depth)) μ)
-    (hρ : 2 * (H.grid (clampDepth m depth)).ρ + (H.disc (clampDepth m depth)).slack
+    (hρ : 2 * (H.grid (clampDepth m depth)).ρ + (H.disc discFact (clampDepth m depth)).slack
           ≤ 3 * pixSize (clampDepth m depth))
     (hA : M.A = ENNReal.ofReal (pixArea (clampDepth m depth)))
     (hcap : ∀ t : ℝ, μ (cap (toE3 (skyvec rac decc)) t) = ENNReal.ofReal (capArea t)) :
@@ -363,7 +363,7 @@ theorem poly_contains_partial (H : Healpix) (m : ℕ) (depth : Option ℕ) (pos 
 theorem poly_excludes_far_partial (H : Healpix) (m : ℕ) (depth : Option ℕ) (pos : List (ℝ × ℝ))
     (D : Finset ℕ) (hD : polyPixels H m depth pos = some D) (rac decc Rc ra dec : ℝ)
     (hcap : ∀ x ∈ polyClosed (polyVerts pos), angle x (toE3 (skyvec rac decc)) ≤ Rc)
-    (h : Rc + 2 * (H.grid (clampDepth m depth)).ρ + (H.poly (clampDepth m depth)).slack
+    (h : Rc + 2 * (H.grid (clampDepth m depth)).ρ + (H.poly polyFact (clampDepth m depth)).slack
           < sepHav rac decc ra dec) :
     regionWithin H m (clampDepth m depth) D false ra dec = false := by
   rw [regionWithin_eq H (clampDepth_le m depth), decide_eq_false_iff_not]
@@ -378,7 +378,7 @@ theorem poly_excludes_far_partial (H : Healpix) (m : ℕ) (depth : Option ℕ) (
 theorem poly_excludes_beyond_partial (H : Healpix) (m : ℕ) (depth : Option ℕ) (pos : List (ℝ × ℝ))
     (D : Finset ℕ) (hD : polyPixels H m depth pos = some D) (rac decc Rc ra dec : ℝ)
     (hcap : ∀ x ∈ polyClosed (polyVerts pos), angle x (toE3 (skyvec rac decc)) ≤ Rc)
-    (hρ : 2 * (H.grid (clampDepth m depth)).ρ + (H.poly (clampDepth m depth)).slack
+    (hρ : 2 * (H.grid (clampDepth m depth)).ρ + (H.poly polyFact (clampDepth m depth)).slack
           ≤ 3 * pixSize (clampDepth m depth))
     (h : Rc + 3 * pixSize (clampDepth m depth) < sepHav rac decc ra dec) :
     regionWithin H m (clampDepth m depth) D false ra dec = false :=
@@ -412,7 +412,7 @@ theorem poly_excludes_beyond_convex_partial (H : Healpix) (m : ℕ) (depth : Opt
     (hv : ∀ p ∈ p0 :: ps, sepHav rac decc p.1 p.2 ≤ Rc)
     (hfan : ∀ e ∈ pairs (polyVerts ps),
       0 < orient (polyVerts (p0 :: ps)) * triple (toE3 (skyvec p0.1 p0.2)) e.1 e.2)
-    (hρ : 2 * (H.grid (clampDepth m depth)).ρ + (H.poly (clampDepth m depth)).slack
+    (hρ : 2 * (H.grid (clampDepth m depth)).ρ + (H.poly polyFact (clampDepth m depth)).slack
           ≤ 3 * pixSize (clampDepth m depth))
     (h : Rc + 3 * pixSize (clampDepth m depth) < sepHav rac decc ra dec) :
     regionWithin H m (clampDepth m depth) D false ra dec = false :=
